@@ -97,9 +97,9 @@ var plans = map[string]*Plan{
 	},
 	"C11": {
 		Level:     "exploration",
-		Scenarios: []ScenPlan{{"lbadmin", 30000, 600000}},
+		Scenarios: []ScenPlan{{"lbadmin", 30000, 600000}, {"lbmix", 8000, 200000}},
 		QuickWallS: 120, ThoroughWallS: 1500,
-		Rule:        "Scenario lbadmin: the real adminapi mux; a sequential phase and a concurrent phase (2-4 admin actors, 0-3 traffic tasks) over add/remove/set_strategy/list with repeated names, absent names, unparsable addresses, unknown strategies; step-stamped history (<= 48 ops) checked with porcupine against a sequential multiset model; traffic must be served (a permanent backend exists) and never by a definitely-removed backend; strategy switch must preserve health.",
+		Rule:        "Scenario lbadmin: the real adminapi mux; a sequential phase and a concurrent phase (2-4 admin actors, 0-3 traffic tasks) over add/remove/set_strategy/list with repeated names, absent names, unparsable addresses, unknown strategies; step-stamped history (<= 48 ops) checked with porcupine against a sequential multiset model; traffic must be served (a permanent backend exists) and never by a definitely-removed backend; strategy switch must preserve health. Scenario lbmix (traffic, listings, adds/removes, strategy switches and ejections from concurrent tasks with stalls): nothing may block (requests arriving during any change are served normally: that includes not deadlocking against the change).",
 		Real:        microReal, Stub: microStub, Assumptions: append(append([]string{}, commonAssumptions...), "porcupine v1.3.0 decides linearizability; Unknown (timeout) results are counted, never reported"),
 		ExpectProbes: []string{"concurrent-admin", "linearizable", "switch-with-ejected-backend"},
 	},
